@@ -139,6 +139,13 @@ class UnitPolicy(BasePolicy):
             return frozenset({"SD"}) if "VAR" in t else EMPTY
         return super().eval(expr, state, flow)
 
+    def default_tags(self, path):
+        if path == "LOG.S" or (self.fn.cls is self.ua.R.logger_cls and path == "self.S"):
+            return frozenset({"SD"})
+        if path.endswith(".s2") and path.count(".") == 1:
+            return frozenset({"VAR"})
+        return EMPTY
+
     def eval_unknown_path(self, expr, state, flow):
         c = canon(expr)
         if c == "LOG.S" or (self.fn.cls is self.ua.R.logger_cls and c == "self.S"):
